@@ -434,7 +434,9 @@ package dbms
 //@ func AuthUser(th, s, nonce) (r)
 //@   nosafety
 //@   trustframe
+//@   ghost ph string = passhash
 //@   ensures! empty_nonce: len(nonce) == 0 ==> !r
+//@   ensures! known_user: r ==> len(ph) > 0
 //@ func AuthToken(s) (r)
 //@   assumed
 //@ func (ss *serverSession) auth(s) (r)
